@@ -26,7 +26,7 @@ func dump(t *rt.Thread, c *rt.GoCont) (rt.Cont, error) {
 	// This will cause a panic if MarshalConst was interupted, so no need to
 	// worry about the rest of this codepath in this case.
 	t.LinearRequire(10, used)
-	if err != nil {
+	if mErr != nil {
 		return nil, mErr
 	}
 	return c.PushingNext1(t.Runtime, rt.StringValue(w.String())), nil
